@@ -81,7 +81,8 @@ def handleRoutable (fields : List String) : String :=
       match newTree.insert GET r with
       | .error _ => "M=insert-failed\tS=routed\tT=rt-insert-failed"
       | .ok (t, _) =>
-        let res := lookup t.roots GET host path
+        let res := Machine.lookup t.roots GET host path
+        let mtag := if res == lookup t.roots GET host path then [] else ["machine-vs-walk"]
         let okTags := match res with
           | .found r' ps tsr =>
             let back := (instantiate r.pattern (ps.map (·.2))).1
@@ -89,7 +90,7 @@ def handleRoutable (fields : List String) : String :=
             (if back == host ++ path && ps.map (·.1) == wildNames r.pattern then [] else ["rt-model-noroundtrip"]) ++
             (if hasInfixCatchAll r.pattern || ps.map (·.2) == vs.take ps.length then [] else ["rt-model-othervalues"])
           | _ => ["rt-model-notrouted"]
-        let tags := Driver.Ops.lookupTags res host ++ okTags ++
+        let tags := Driver.Ops.lookupTags res host ++ okTags ++ mtag ++
           (if hasInfixCatchAll r.pattern then ["rt-infix"] else []) ++ (if vs.isEmpty then ["rt-static"] else [])
         "M=" ++ Driver.Ops.showResult res ++ "\tS=routed\tT=" ++ join tags ","
   | _ => "M=bad-case"
